@@ -532,6 +532,18 @@ func metricFamilies() [][]metricCase {
 	// aggregation kind x number type x temporality x monotonic x {0,1,2} points x min/max x exemplars
 	fams = append(fams, aggFamilyN[int64]("i64"), aggFamilyN[float64]("f64"))
 
+	// many data points / exemplars per metric
+	for _, n := range []int{127, 128, 129, 300, 1000} {
+		mk("point.count", fmt.Sprintf("%d data points", n), metricdata.Sum[int64]{Temporality: metricdata.CumulativeTemporality, IsMonotonic: true, DataPoints: numPoints[int64](n, 0)})
+		mk("point.count", fmt.Sprintf("%d data points", n), metricdata.Histogram[float64]{Temporality: metricdata.DeltaTemporality, DataPoints: histPoints[float64](n, 0, true, true)})
+		ex := make([]metricdata.Exemplar[int64], n)
+		for i := range ex {
+			ex[i] = metricdata.Exemplar[int64]{Value: int64(i), Time: mBase.Add(time.Duration(i))}
+		}
+		mk("point.exemplars.count", fmt.Sprintf("%d exemplars", n), metricdata.Gauge[int64]{DataPoints: []metricdata.DataPoint[int64]{{Value: 1, Time: mBase, Exemplars: ex}}})
+	}
+	flush()
+
 	// summary: points x quantiles
 	for n := 0; n <= 2; n++ {
 		for q := 0; q <= 2; q++ {
